@@ -849,7 +849,7 @@ def g_fill(r):
     return {"mode": r.choice(["solid", "solid", "gradient", "patterned", "background", "none_read"]),
             "rgb": "%06X" % r.randint(0, 0xFFFFFF), "theme": r.choice([None, "ACCENT_1", "ACCENT_3", "TEXT_2"]),
             "pattern": r.choice(["CROSS", "DIVOT", "PERCENT_50", "WAVE", "ZIG_ZAG"]),
-            "angle": r.choice([None, 0, 45, 90.5, 359]), "bright": r.choice([None, 0.3, -0.5]),
+            "angle": r.choice([None, 0, 45, 90.5, 359, 360, 720, -90, 359.9999]), "bright": r.choice([None, 0.3, -0.5]),
             "stop": r.choice([None, 0, 1])}
 
 
